@@ -109,6 +109,7 @@ impl Manual {
     }
     pub fn tick(&mut self) {
         self.actor.tick();
+        HEARTBEAT.fetch_add(1, std::sync::atomic::Ordering::SeqCst);
     }
 }
 
@@ -126,4 +127,45 @@ pub fn honest_reply(peer: &Peer, inc: &Incoming, nodes: &[Node]) -> Option<Messa
         }
         RequestTypeSpecific::Put(_) => ResponseSpecific::Ping(PingResponseArguments { responder_id }),
     }))
+}
+
+/// Watchdog for scenarios in which a node could stop making progress inside `tick` (the manually ticked node runs in
+/// the harness' own thread, so a spin there would hang the run): while a label is set and no tick returns for 20 s of real
+/// time, the process prints the label and exits with code 86; the check reports that scenario as the failing input.
+pub static HEARTBEAT: std::sync::atomic::AtomicU64 = std::sync::atomic::AtomicU64::new(0);
+static WATCH: std::sync::Mutex<Option<String>> = std::sync::Mutex::new(None);
+static WATCHDOG: std::sync::Once = std::sync::Once::new();
+
+pub fn watch(label: &str) {
+    *WATCH.lock().unwrap() = Some(label.to_string());
+    WATCHDOG.call_once(|| {
+        std::thread::spawn(|| {
+            let mut last = 0u64;
+            let mut stale = 0u32;
+            loop {
+                std::thread::sleep(std::time::Duration::from_secs(1));
+                let label = WATCH.lock().unwrap().clone();
+                match label {
+                    Some(l) => {
+                        let hb = HEARTBEAT.load(std::sync::atomic::Ordering::SeqCst);
+                        if hb == last {
+                            stale += 1;
+                        } else {
+                            stale = 0;
+                            last = hb;
+                        }
+                        if stale >= 20 {
+                            println!("WEDGED: {}", l);
+                            std::process::exit(86);
+                        }
+                    }
+                    None => stale = 0,
+                }
+            }
+        });
+    });
+}
+
+pub fn unwatch() {
+    *WATCH.lock().unwrap() = None;
 }
